@@ -243,6 +243,10 @@ class ExprMixin:
                 and isinstance(a, (Opaque, str, FStr)) and isinstance(b, (Opaque, str, FStr)):
             f = z3.Function('str_concat', U, U, U)
             return [ok(Opaque(f(self.as_u_term(a, st), self.as_u_term(b, st)), kind='str', label='concat'), st)]
+        # symbolic strings: concatenation
+        if isinstance(op, ast.Add) and ((is_sym(a) and z3.is_string(a)) or (is_sym(b) and z3.is_string(b))) and \
+                all(isinstance(x, str) or (is_sym(x) and z3.is_string(x)) for x in (a, b)):
+            return [ok(z3.Concat(z3.StringVal(a) if isinstance(a, str) else a, z3.StringVal(b) if isinstance(b, str) else b), st)]
         # list + list: a new list (kept as segments when an operand has symbolic length)
         if isinstance(op, ast.Add) and isinstance(a, Ref) and isinstance(b, Ref) and \
                 st.obj(a).kind in ('list', 'slist', 'seglist') and st.obj(b).kind in ('list', 'slist', 'seglist'):
